@@ -9,6 +9,7 @@ import (
 	"log/slog"
 	"net"
 	"sync"
+	"sync/atomic"
 	"time"
 )
 
@@ -22,7 +23,8 @@ type connection struct {
 	activeMsgCompleteChan chan *Message
 	reissuePackChan       chan *Message
 	// platformSerialNumber 平台流水号 到了math.MaxUint16后+1重新变成0
-	platformSerialNumber uint16
+	// 写协程递增 读协程打日志时读取 所以用原子操作
+	platformSerialNumber atomic.Uint32
 	joinFunc             func(message *Message, activeChan chan<- *ActiveMessage) (string, error)
 	leaveFunc            func(key string)
 	key                  string
@@ -41,7 +43,6 @@ func newConnection(conn *net.TCPConn, handles map[consts.JT808CommandType]Handle
 		activeMsgChan:         make(chan *ActiveMessage, 3),
 		activeMsgCompleteChan: make(chan *Message, 3),
 		reissuePackChan:       make(chan *Message, 3),
-		platformSerialNumber:  uint16(0),
 		joinFunc:              join,
 		leaveFunc:             leave,
 		filter:                filter,
@@ -76,13 +77,13 @@ func (c *connection) reader() {
 				if errors.Is(err, net.ErrClosed) || errors.Is(err, io.EOF) {
 					slog.Debug("connection close",
 						slog.Bool("join", join),
-						slog.Any("platform num", c.platformSerialNumber),
+						slog.Any("platform num", uint16(c.platformSerialNumber.Load())),
 						slog.Any("err", err))
 					return
 				}
 				slog.Error("read data",
 					slog.Bool("join", join),
-					slog.Any("platform num", c.platformSerialNumber),
+					slog.Any("platform num", uint16(c.platformSerialNumber.Load())),
 					slog.Any("err", err))
 				return
 			} else if n > 0 {
@@ -91,7 +92,7 @@ func (c *connection) reader() {
 				if err != nil {
 					slog.Error("parse data",
 						slog.Bool("join", join),
-						slog.Any("platform num", c.platformSerialNumber),
+						slog.Any("platform num", uint16(c.platformSerialNumber.Load())),
 						slog.String("effective data", fmt.Sprintf("%x", effectiveData)),
 						slog.Any("err", err))
 					return
@@ -388,8 +389,6 @@ func (c *connection) onWriteExecutionEvent(msg *Message) {
 }
 
 func (c *connection) curSeq() uint16 {
-	defer func() {
-		c.platformSerialNumber++
-	}()
-	return c.platformSerialNumber
+	// 返回当前值 然后+1 (uint16截断后 65535的下一个是0)
+	return uint16(c.platformSerialNumber.Add(1) - 1)
 }
